@@ -57,6 +57,6 @@ def generateKWith (hmac : Bytes → Bytes → Bytes) (hlen : Nat) (fuel : Nat) (
   hLoop hmac q fuel K V                                                   -- h
 
 def generateK (fuel : Nat) (q x : Nat) (h1 : Bytes) : Option Nat :=
-  generateKWith Pycoin.Hash.hmacSha256 32 fuel q x h1
+  generateKWith Pycoin.Hash.hmacSha256L 32 fuel q x h1
 
 end Pycoin.Spec.RFC6979
